@@ -151,6 +151,9 @@ class SpecMixin:
     def spec_form(self, st, name, args, kwargs):
         if name == "raised":
             raise SpecError("raised() is only meaningful in raises clauses")
+        if name == "ghost":
+            yield st, TupleV(list(st.ghost.get(args[0].s, ())))
+            return
         if name == "uf":
             # uf("name", "real"|"int"|"bool", *args): uninterpreted function application
             fname, rng = args[0].s, args[1].s
@@ -222,6 +225,12 @@ class SpecMixin:
                 post = c.ghost_effect(self, post, env2)
             for label, text in c.ensures.items():
                 g = self.spec_bool(post, text, env2, "assume", c.spec_module)
+                for f in getattr(self, "findings", []):
+                    # a clause with a recorded known finding is only assumed outside the failing region
+                    if f.get("obligation") == f"{c.qual}/ensures:{label}" and f.get("region"):
+                        g = z3.Or(g, self.spec_bool(pre, f["region"], env, "assume", c.spec_module))
+                        self.used_assumptions.add(f"known finding {f['id']}: clause {c.short}/{label} assumed only "
+                                                  f"outside its failing region")
                 post = post.assume(g)
             if self.feasible(post.pc):
                 yield post.with_loc(caller_loc), result
